@@ -205,8 +205,9 @@ def _get_aliases(result_types: dict, package_name: str) -> dict[str, set[str]]:
                     fullname = key.fullname
                 elif isinstance(key, mypy_nodes.NameExpr) and isinstance(key.node, mypy_nodes.Var):
                     fullname = key.node.fullname
-                else:  # pragma: no cover
-                    raise TypeError("Received unexpected type while searching for aliases.")
+                else:
+                    # Not a class, an instance or a variable (e.g. a function accessed through its module)
+                    continue
 
                 aliases[name].add(fullname)
 
